@@ -73,7 +73,7 @@ func c28rDraw(rt *rapid.T) c28rCase {
 			q.Key = rapid.SampledFrom([]string{"a", "b"}).Draw(rt, "key")
 		case 5:
 			q.Kind = "qfile"
-			q.Pkg = rapid.IntRange(0, 3).Draw(rt, "pkg")
+			q.Pkg = rapid.IntRange(-1, 3).Draw(rt, "pkg")
 		case 6:
 			q.Kind = "acct"
 			q.Acc = rapid.IntRange(0, c.NAcc-1).Draw(rt, "acc")
